@@ -177,7 +177,13 @@ def main(tier: str, replay: str | None = None) -> int:
             part = idx[start:start + 400]
             src = "\n".join(f"function f{i}() {{ {cases[i]['stmt']} }}" for i in part)
             packs.append((ci, part, dict(src=src, cert=cert_text(cert))))
-    results = compile_batch([p[2] for p in packs], chunk=1)
+    # All packs are compiled one after the other in ONE process, with the jmc.txt name sets
+    # interleaved: a cache or global that survives from one compilation to the next (e.g. an operand
+    # resolved under the previous VAR name) then shows up as a text difference from the model, which
+    # is a pure function of the statement and the names.
+    order = sorted(range(len(packs)), key=lambda i: (sum(1 for j in range(i) if packs[j][0] == packs[i][0]), packs[i][0]))
+    packs = [packs[i] for i in order]
+    results = compile_batch([p[2] for p in packs], chunk=len(packs))
 
     coq_files = []
     pack_ints = []
